@@ -142,7 +142,7 @@ var c08ListCtxs = []c08ListCtx{
 }
 
 // forms of the list on the "-" side (E the element) and on the "+" side
-var c08ListMinus = []string{"..., E", "E, ...", "..., E, ...", "...", "E"}
+var c08ListMinus = []string{"..., E", "E, ...", "..., E, ...", "...", "E", "E, ..., E"}
 var c08ListPlus = []string{"...", "", "..., ...", "E", "..., E", "E, ..."}
 
 func c08EmptyListN() int { return len(c08ListCtxs) * len(c08ListMinus) * len(c08ListPlus) * 2 }
@@ -430,3 +430,26 @@ var c08CLIForms = [][]string{
 }
 
 func c08CLIFormsN() int { return len(c08CLIForms) * 3 }
+
+// ---- token insertions in the metavariables section ---------------------------
+//
+// The byte-substitution family never makes a patch longer. Here every token of
+// a small alphabet is INSERTED at every token boundary of a metavariables
+// section with two declarations (one of them terminated by a semicolon), which
+// yields the doubled separators, dangling commas and stray keywords that a
+// hand-written scanner meets in practice.
+func init() {
+	pieces := []string{"var", " ", "x", " ", "expression", ";", "\n", "var", " ", "y", ",", " ", "z", " ", "identifier", "\n"}
+	tokens := []string{";", ",", "var", "(", ")", "=", "expression", "identifier", "x", "\n", "@@", "...", ".", "\"", "/*", "//", "\x00"}
+	for at := 0; at <= len(pieces); at++ {
+		if at > 0 && at < len(pieces) && pieces[at] == " " && pieces[at-1] != " " {
+			// one boundary per gap
+			continue
+		}
+		for _, tk := range tokens {
+			meta := strings.Join(pieces[:at], "") + tk + strings.Join(pieces[at:], "")
+			name := fmt.Sprintf("meta-insert-%q-at-%d", tk, at)
+			c08IllTyped = append(c08IllTyped, struct{ name, patch, stmt string }{name, "@@\n" + meta + "@@\n-foo(x, y, z)\n+bar(z, y, x)\n", "foo(1 + 2, a, b)"})
+		}
+	}
+}
